@@ -142,6 +142,46 @@ pub fn c07(cx: &mut Ctx) {
             }
         }
     }
+    // an output of exactly the payload length, then zero-sized outputs: the framing that is still pending (CRLF
+    // after the data, last-chunk line, trailers, final CRLF) is consumed although nothing can be produced
+    for sizes in [vec![3usize], vec![2, 2], vec![1, 3, 2]] {
+        for trailers in [0usize, 1] {
+            for whole in [true, false] {
+                cx.case("zero");
+                let coding = make_coding(&mut r0, &sizes, &[0], trailers, 0);
+                if !to_recv_body(cx, "GET", CHUNKED_HEAD) { continue; }
+                cx.meta(&format!("body-stream {}", hx(&coding)));
+                let mut stream = coding.clone();
+                stream.extend_from_slice(NEXT);
+                let payload: usize = sizes.iter().sum();
+                let mut off = 0usize;
+                // first the payload into a buffer of exactly its size (one read per chunk when not `whole`)
+                let caps: Vec<usize> = if whole { vec![payload] } else { sizes.clone() };
+                for cap in caps {
+                    for _ in 0..3 {
+                        let res = cx.op(&format!("bread {} {}", hx(&stream[off..]), cap));
+                        let p: Vec<&str> = res.split(' ').collect();
+                        if p[0] != "bytes" { break; }
+                        let i: usize = p[1].parse().unwrap_or(0);
+                        off += i;
+                        if p[2] != "-" { break; }
+                    }
+                }
+                // then only zero-sized outputs
+                for _ in 0..8 {
+                    let res = cx.op(&format!("bread {} 0", hx(&stream[off.min(stream.len())..])));
+                    let p: Vec<&str> = res.split(' ').collect();
+                    if p[0] != "bytes" { break; }
+                    let i: usize = p[1].parse().unwrap_or(0);
+                    off += i;
+                    if i == 0 { break; }
+                }
+                cx.meta(&format!("consumed {}", off));
+                cx.op("canproceed");
+                cx.op("proceed");
+            }
+        }
+    }
     // hex-digit boundaries
     for n in [15usize, 16, 17, 255, 256, 4095, 4096] {
         for style in [0usize, 1, 2, 7] {
@@ -246,6 +286,46 @@ pub fn c08(cx: &mut Ctx) {
                 cx.op("canproceed");
                 cx.op("proceed!");
             }
+        }
+    }
+    // an informational response first, then the length-delimited one on the same flow
+    for n in [1usize, 5, 300] {
+        cx.case("after1xx");
+        let body: Vec<u8> = (0..n).map(|i| b'a' + (i % 26) as u8).collect();
+        if !super::to_recv_response(cx, "GET", "HTTP/1.1") { continue; }
+        cx.op(&format!("resp {}", hx(b"HTTP/1.1 103 Early Hints\r\nLink: </x>\r\n\r\n")));
+        let head = format!("HTTP/1.1 200 OK\r\nContent-Length: {}\r\n\r\n", n).into_bytes();
+        cx.op(&format!("resp {}", hx(&head)));
+        cx.op("proceed");
+        if cx.rec.state() != "recvBody" { cx.op("close?"); continue; }
+        cx.meta(&format!("len {} {}", n, hx(&body)));
+        cx.op("mode");
+        let mut stream = body.clone();
+        stream.extend_from_slice(NEXT);
+        let used = read_schedule(cx, &stream, &[n / 2, stream.len()], &mut || 1000, false);
+        cx.meta(&format!("consumed {}", used));
+        cx.op("canproceed");
+        cx.op("proceed");
+    }
+    // an HTTP/1.0 response ignores Transfer-Encoding: with a Content-Length beside it the body is N bytes
+    for (hi, head) in ["HTTP/1.0 200 OK\r\nTransfer-Encoding: chunked\r\nContent-Length: 5\r\n\r\n", "HTTP/1.0 200 OK\r\nContent-Length: 5\r\nTransfer-Encoding: chunked\r\n\r\n"].iter().enumerate() {
+        for reqv in ["HTTP/1.1", "HTTP/1.0"] {
+            cx.case("v10both");
+            let _ = hi;
+            cx.rec.new_flow(&format!("GET {} http://a.test/p 0", reqv));
+            cx.op("proceed"); cx.op("write 4096"); cx.op("proceed");
+            cx.op(&format!("resp {}", hx(head.as_bytes())));
+            cx.op("proceed");
+            if cx.rec.state() != "recvBody" { continue; }
+            let body = b"hello".to_vec();
+            cx.meta(&format!("len 5 {}", hx(&body)));
+            cx.op("mode");
+            let mut stream = body.clone();
+            stream.extend_from_slice(NEXT);
+            let used = read_schedule(cx, &stream, &[2, stream.len()], &mut || 1000, false);
+            cx.meta(&format!("consumed {}", used));
+            cx.op("canproceed");
+            cx.op("proceed");
         }
     }
     // large N with windows much smaller than N
